@@ -216,6 +216,13 @@ def systematic_resample(
 
     offset = np.random.random()
 
+    # A weight sum accepted as "1" may fall short of 1, leaving teeth beyond the last
+    # cumulative weight: they belong to the last particle that has any weight, never
+    # to a trailing particle of weight zero.
+    last = len(weights) - 1
+    while last > 0 and not weights[last] > 0:
+        last -= 1
+
     j = 0
     cumulative_sum = weights[0]
     indeces = np.empty(size, dtype=int)
@@ -224,7 +231,7 @@ def systematic_resample(
         # cell j iff offset >= size * cumulative_sum - i. Compared in this form the
         # offset is never rounded: forming (offset + i) rounds up to i + 1 for an
         # offset within 2**-53 of 1, which moved the tooth into the next cell.
-        while j < len(weights) - 1 and offset >= size * cumulative_sum - i:
+        while j < last and offset >= size * cumulative_sum - i:
             j += 1
             cumulative_sum += weights[j]
         indeces[i] = j
